@@ -52,6 +52,16 @@ OuterS(v, w) == TM(Outer(v, w))
 VAddS(a, b) == TV(VAdd(a, b))
 VSubS(a, b) == TV(VSub(a, b))
 VScaleS(k, a) == TV(VScale(k, a))
+
+(* The same crystal expressed in another basis of its lattice: rows L' = U L for an integer unimodular U.      *)
+(* Gram matrix G' = U G U^T; a position with (column) coordinates x has coordinates U^-T x.  The physics is   *)
+(* unchanged, so every Cartesian statement of the requirement is invariant under the choice of U               *)
+(* (NAC!ReqBasisCovariant).                                                                                    *)
+Sheared(c, U) ==
+  [name |-> c.name, G |-> TM(MatMul(U, MatMul(c.G, Transpose(U)))), D |-> c.D,
+   atoms |-> [a \in 1..Len(c.atoms) |->
+               [sp |-> c.atoms[a].sp, m |-> c.atoms[a].m, num |-> TV(MatVec(Transpose(UniInv(U)), c.atoms[a].num))]]]
+IsSignedPermutation(U) == \A i \in I3 : Cardinality({j \in I3 : U[i][j] # 0}) = 1 /\ \A j \in I3 : U[i][j] \in {-1, 0, 1}
 Col3(M, j) == <<M[1][j], M[2][j], M[3][j]>>
 RECURSIVE SumFn(_, _)
 SumFn(f, Dd) == IF Dd = {} THEN ZeroM
